@@ -23,6 +23,12 @@ Theorem C12_ready_polls_all : forall e w e' r l,
   ready_evs l = map (ev_of w) (leaves e).
 Proof. exact ready_not_err_all_polled. Qed.
 
+(* ... and every leaf has consumed exactly one scripted answer, so the theorems apply again to
+   the next call (Pending^k . Ready leaves make the combinator ready after exactly max k + 1 calls). *)
+Theorem C12_ready_state : forall e w e' r l,
+  poll_ready e w = (e', r, l) -> is_rerr r = false -> e' = advance e.
+Proof. exact ready_not_err_state. Qed.
+
 (* No lost wake-up: if the combinator reports Pending, every leaf — so every leaf whose next
    scripted answer is Pending — has been polled with the current waker w ... *)
 Theorem C12_waker : forall e w e' l,
@@ -114,3 +120,4 @@ Print Assumptions C12_future_polls.
 Print Assumptions C12_polls_are_the_run.
 Print Assumptions C12_factory_polls.
 Print Assumptions C12_factory_polls_are_the_run.
+Print Assumptions C12_ready_state.
